@@ -114,7 +114,17 @@ def case_regular(seed, idx, res):
     if any(t.kind == "depth" for t in tests) and rng.random() < 0.7:
         ov["depth"] = rng.choice([30, 100, 250])
     ov["default_array_lengths"] = [0, 1, 2, 3]
-    out = A.run(A.make_ctx(spec, funsigs=[t.fn.sig for t in tests], overrides=ov))
+    # the branching solver answers `unknown` with probability p (what its 1 ms timeout does on hard loop conditions):
+    # a cut at a branch whose feasibility is unknown must be reported like any other
+    import symrun
+
+    p = rng.choice([0.0, 0.0, 0.5, 1.0])
+    symrun.MON.unknown_p, symrun.MON.unknown_rng, symrun.MON.step_budget = p, random.Random(idx), 0
+    res["features"][f"branching-unknown-p={p}"] += 1
+    try:
+        out = A.run(A.make_ctx(spec, funsigs=[t.fn.sig for t in tests], overrides=ov))
+    finally:
+        symrun.MON.unknown_p = 0.0
     res["counters"]["contracts"] += 1
     if out.exception or len(out.results) != len(tests):
         res["counters"]["run_failed"] += 1
